@@ -31,7 +31,8 @@ def case_strategy():
         host = draw(st.sampled_from(["func", "func", "attr", "mc"]))
         # keyword-only names, sometimes ones that the generated entry point might use for itself
         kwpool = draw(st.sampled_from([["k0", "k1", "k2"]] * 4 + [["type", "MISSING", "method"], ["KWARGS", "TARGS", "k0"],
-                                                                     ["OVLD", "isinstance", "tuple"], ["ARG0", "self_", "HANDLER0"]]))
+                                                                     ["OVLD", "isinstance", "tuple"], ["ARG0", "self_", "HANDLER0"],
+                                                                     ["ARG1", "ARG2", "k0"]]))
         methods = []
         zero_used = False
         for i in range(nm):
